@@ -180,6 +180,10 @@ def run(report, db, tier):
                       'installation is synchronous')
     shared.forced_write_is_synchronous(
         report, R4f, db, shared.summariser(db, cg), M)
+    # installed "for both directions": the reading loop must pick the wrapped
+    # stream up for the very next frame
+    from .c10 import transport_lookup
+    transport_lookup(report, db, cg, M, rule_id='R18.9')
     R5 = report.rule('R18.5', 'wrappers are single pass-through updates '
                      '(continuous stream, any segmentation)')
     shared.wrapper_passthrough_ps(report, R5, db)
